@@ -115,3 +115,7 @@ package core
 //@   before call:Stop#1 assert d.redialer != nil
 //@   ensures isnil(result) ==> d.closed
 //@   ensures !isnil(result) ==> result == mangos.ErrClosed
+//@
+//@ func (*pipe).Close$1
+//@   at call:Lock#1 set wasAdded:bool = p.added
+//@   ensures !wasAdded ==> called("Free")
